@@ -7,9 +7,11 @@ Correspondence: `find_local_peaks_rough`, `find_local_peaks(refinement in {None,
 (run at Rat on the exact dyadic values the float32 maps denote).
 
 Comparison: peak sets, order, (x,y), sample, channel, values: exact.  Refined points: kornia's
-crop goes through a float32 perspective solve + bilinear sampling, observed noise ≤ 2.4e-7 per
-patch entry; tolerance `1e-5 * max(1, cond)` with `cond = (r+1)·Σ|P| / |ΣP|` (=(r+1) for a
-non-negative patch, so 1e-5..4e-5 there); patches with |ΣP| < 1e-3·Σ|P| are knife-edges
+crop goes through a float32 perspective solve + bilinear sampling (patch entries off by up to
+2.4e-7) and the points are float32 numbers up to ~10; observed |impl - model| reaches
+1e-5·kappa, kappa = Σ|P|/|ΣP| (1 for a non-negative patch), so a flat 1e-5 would raise false
+alarms.  Tolerance: `5e-5 * max(1, cond)`, `cond = (r+1)·kappa` (>= 10x the observed noise,
+<= 1/100 of the effect of any mutation tried); patches with |ΣP| < 1e-3·Σ|P| are knife-edges
 (the code divides by ~0), counted and skipped.
 """
 import math
@@ -277,9 +279,10 @@ def run_case(chk, I, case, mline, where="generated"):
                 chk.tag("knife:patch_sum~0")
                 continue
             cond = (r + 1) * az / abs(z)
-            tol = 2e-5 * max(1.0, cond)
+            tol = 5e-5 * max(1.0, cond)
             ex, ey = abs(q[0] - float(m[5][0])), abs(q[1] - float(m[5][1]))
             chk.extra["max_refine_err_over_tol"] = max(chk.extra.get("max_refine_err_over_tol", 0.0), max(ex, ey) / tol)
+            chk.extra["max_refine_abs_err_over_kappa"] = max(chk.extra.get("max_refine_abs_err_over_kappa", 0.0), max(ex, ey) * abs(z) / az)
             if not (ex <= tol and ey <= tol):
                 chk.disagree("find_local_peaks(integral) points == Peaks.localPeaks (tol)", {**small, "peak": k},
                              [q[0], q[1]], [float(m[5][0]), float(m[5][1])])
@@ -340,7 +343,7 @@ def main(chk: Check):
                   "maps": [[[3]], [[0]]]})
     cases.append({"S": 2, "C": 1, "h": 3, "w": 3, "den": 8, "thr": 0.125, "r": 1, "kind": "fixed", "shape": "fixed",
                   "maps": [[[8, 0, 8], [0, 0, 0], [8, 0, 8]], [[8, 8, 0], [0, 0, 0], [0, 0, 1]]]})
-    for _ in range(chk.n(350, 6000)):
+    for _ in range(chk.n(1000, 8000)):
         cases.append(gen_case(rng))
 
     lines = [model_line(c, I.tensor(c)) for c in cases]
@@ -349,7 +352,7 @@ def main(chk: Check):
         run_case(chk, I, c, m)
 
     # ---- integral_regression alone (patch → offsets), incl. non-square use of xv / yv
-    n_off = chk.n(150, 2000)
+    n_off = chk.n(300, 3000)
     pats, plines = [], []
     for _ in range(n_off):
         r = rng.choice([1, 2, 3])
@@ -373,7 +376,7 @@ def main(chk: Check):
             chk.knife_edges += 1
             continue
         mx, my = (float(Fraction(s)) for s in m.split())
-        tol = 2e-5 * max(1.0, (r + 1) * az / abs(z))
+        tol = 5e-5 * max(1.0, (r + 1) * az / abs(z))
         if not (abs(dx - mx) <= tol and abs(dy - my) <= tol):
             chk.disagree("integral_regression == Peaks.integralOffsets", {"r": r, "patch_x8": ints}, [dx, dy], [mx, my])
             if min(ints) >= 0 and not (abs(dx) <= p / 2 and abs(dy) <= p / 2):
@@ -401,7 +404,7 @@ if __name__ == "__main__":
         trusted=[
             "Lean 4.33 kernel; axioms ⊆ {propext, Classical.choice, Quot.sound} (audited per run)",
             "hand-written model Peaks.lean of find_local_peaks_rough / find_local_peaks / integral_regression; tied to "
-            "/repo by exact comparison (sets, order, indices, values) and 1e-5·cond comparison (refined points) on the explored maps only",
+            "/repo by exact comparison (sets, order, indices, values) and 5e-5·cond comparison (refined points) on the explored maps only",
             "kornia dilation (geodesic border, max_val=1e4) and crop_and_resize (unit sampling at integer offsets, zero padding) "
             "for odd patch sizes: modelled, validated by the correspondence",
             "float32 comparisons on dyadic map values (k/8, k/16, |v| ≤ 1) coincide with comparisons of the rationals they denote",
